@@ -490,3 +490,455 @@ Proof.
   exists f. unfold collect_dict_model. rewrite Hf. auto.
 Qed.
 
+
+(* ================================================================ payload: pointwise characterisation
+
+   After the flags of a ContextResult are scattered, its data / tinp / zinp / lat / lon arrays are
+   stored under the key of its LAST CallResult: replaced wholesale when the mask covers every row,
+   scattered through the mask otherwise.  Array index a: 0 = data, 1..4 = the axes; a cell of an
+   accumulator is an `option obs` (None = masked, Some v = the stored value v, itself possibly a
+   missing observation).  The theorems below are the payload analogue of collect_flags_correct:
+   at every row the accumulator of key k holds the cell of the last context keyed k whose mask
+   covers the row, and stays masked when there is none. *)
+
+(* the cell context r contributes to row i of array a: the (rank i)-th entry of its subset array *)
+Definition pay_cell (r : ctxres) (a i : nat) : option obs :=
+  nth_error (nth a (r_pay r) []) (rank (r_mask r) i).
+
+(* context r stores its payload under key k *)
+Definition keyed_by (k : key) (r : ctxres) : bool :=
+  match last_key r with Some k' => key_eqb k' k | None => false end.
+
+(* ... and its mask covers row i *)
+Definition pay_covers (r : ctxres) (k : key) (i : nat) : bool :=
+  (keyed_by k r && nth i (r_mask r) false)%bool.
+
+Definition pay_pt (k : key) (a i : nat) (acc : option obs) (r : ctxres) : option obs :=
+  if pay_covers r k i then pay_cell r a i else acc.
+
+(* pay_spec: "last covering context wins", pointwise *)
+Definition pay_from (rs : list ctxres) (k : key) (a i : nat) (init : option obs) : option obs :=
+  fold_left (pay_pt k a i) rs init.
+
+(* some context stores under key k *)
+Definition keyed (k : key) (rs : list ctxres) : bool := existsb (keyed_by k) rs.
+
+(* array index a is claimed: the data array, or an axis the run's streams have *)
+Definition present (shape : list bool) (a : nat) : bool :=
+  match a with O => true | S a' => nth a' shape false end.
+
+Lemma pay_from_cons r rs k a i init :
+  pay_from (r :: rs) k a i init = pay_from rs k a i (pay_pt k a i init r).
+Proof. reflexivity. Qed.
+
+(* the same fold written over the contexts keyed k only (the form of the task statement) *)
+Lemma pay_from_filter rs k a i : forall init,
+  pay_from rs k a i init =
+  fold_left (fun acc r => if nth i (r_mask r) false then pay_cell r a i else acc)
+            (filter (keyed_by k) rs) init.
+Proof.
+  induction rs as [|r rs IH]; intros init; [reflexivity|].
+  rewrite pay_from_cons. simpl filter. unfold pay_pt, pay_covers.
+  destruct (keyed_by k r); simpl; apply IH.
+Qed.
+
+(* ---------------------------------------------------------------- list facts *)
+
+Lemma nth_map_some {A} (v : list A) i : nth i (map Some v) None = nth_error v i.
+Proof. revert i. induction v as [|x v IH]; intros [|i]; simpl; auto. Qed.
+
+Lemma nth_all_true m i : all_true m = true -> (i < length m)%nat -> nth i m false = true.
+Proof.
+  unfold all_true. revert i. induction m as [|b m IH]; intros i H Hi; simpl in *; [lia|].
+  apply andb_true_iff in H. destruct H as [Hb H]. destruct i as [|i]; [exact Hb|]. apply IH; [exact H|lia].
+Qed.
+
+Lemma rank_all_true m i : all_true m = true -> (i <= length m)%nat -> rank m i = i.
+Proof.
+  unfold all_true, rank, count_true. revert i.
+  induction m as [|b m IH]; intros [|i] H Hi; simpl in *; try reflexivity; try lia.
+  apply andb_true_iff in H. destruct H as [-> H]. simpl. f_equal. apply IH; [exact H|lia].
+Qed.
+
+(* the wholesale replacement is what the scatter would have produced *)
+Lemma scatter_all_true {A} m (vals : list A) acc :
+  all_true m = true -> length vals = length m -> length acc = length m ->
+  scatter m vals acc = map Some vals.
+Proof.
+  intros Hall Hv Ha. apply (nth_ext _ _ None None).
+  - rewrite scatter_length, map_length. congruence.
+  - rewrite scatter_length. intros i Hi. rewrite nth_scatter by exact Hi.
+    rewrite nth_all_true by (auto; lia).
+    rewrite (count_true_all _ Hall), Hv, Nat.eqb_refl.
+    rewrite rank_all_true by (auto; lia). symmetry. apply nth_map_some.
+Qed.
+
+(* ---------------------------------------------------------------- one array, one context *)
+
+Lemma place_pt g m v o x i :
+  place g m v o = Some x -> length v = count_true m -> (i < length o)%nat ->
+  nth i x None = if nth i m false then nth_error v (rank m i) else nth i o None.
+Proof.
+  unfold place. intros H Hv Hi.
+  destruct (g && is_nil v)%bool eqn:G.
+  - injection H as <-. apply andb_true_iff in G. destruct G as [_ G].
+    destruct v as [|? ?]; [|discriminate].
+    destruct (nth i m false) eqn:C; [|reflexivity].
+    pose proof (rank_lt_count _ _ C). simpl in Hv. lia.
+  - destruct (scatter_ok m v && Nat.eqb (length o) (length m))%bool; [|discriminate].
+    injection H as <-. rewrite nth_scatter by exact Hi. rewrite Hv, Nat.eqb_refl. reflexivity.
+Qed.
+
+Lemma place_all_pt m i : forall pay g old new a,
+  place_all g m pay old = Some new ->
+  length (nth a pay []) = count_true m -> (i < length (nth a old []))%nat ->
+  nth i (nth a new []) None =
+  if nth i m false then nth_error (nth a pay []) (rank m i) else nth i (nth a old []) None.
+Proof.
+  induction pay as [|v pay IH]; intros g old new a H Hv Hi; destruct old as [|o old]; simpl in H;
+    try discriminate.
+  - destruct a; simpl in Hi; lia.
+  - destruct (place g m v o) as [x|] eqn:Ex; [|discriminate].
+    destruct (place_all true m pay old) as [rr|] eqn:Er; [|discriminate].
+    injection H as <-. destruct a as [|a]; simpl in *.
+    + eapply place_pt; eauto.
+    + eapply IH; eauto.
+Qed.
+
+(* ---------------------------------------------------------------- shapes *)
+
+Lemma shape_axis_len shape cnt axes : Forall2 (fun p a => wf_axis p cnt a) shape axes ->
+  forall a', nth a' shape false = true -> length (nth a' axes []) = cnt.
+Proof.
+  intros H. induction H as [|p x shape' axes' Hw _ IH]; intros [|a'] Hp; simpl in *; try discriminate.
+  - subst p. exact Hw.
+  - apply IH. exact Hp.
+Qed.
+
+Lemma shape_acc_len shape n (olds : list (list (option obs))) :
+  Forall2 (fun p x => acc_ok p n x) shape olds ->
+  forall a', nth a' shape false = true -> length (nth a' olds []) = n.
+Proof.
+  intros H. induction H as [|p x shape' olds' Hw _ IH]; intros [|a'] Hp; simpl in *; try discriminate.
+  - subst p. exact Hw.
+  - apply IH. exact Hp.
+Qed.
+
+Lemma wf_pay_len shape n r a :
+  wf_ctx shape n r -> present shape a = true ->
+  length (nth a (r_pay r) []) = count_true (r_mask r).
+Proof.
+  intros [_ Hp] Ha. destruct (r_pay r) as [|d axes]; [contradiction|]. destruct Hp as [Hd Hax].
+  destruct a as [|a']; simpl in *; [exact Hd|]. eapply shape_axis_len; eauto.
+Qed.
+
+Lemma arrs_len shape n (arrs : list (list (option obs))) a :
+  match arrs with d :: axes => length d = n /\ Forall2 (fun p x => acc_ok p n x) shape axes | [] => False end ->
+  present shape a = true -> length (nth a arrs []) = n.
+Proof.
+  intros H Ha. destruct arrs as [|d axes]; [contradiction|]. destruct H as [Hd Hax].
+  destruct a as [|a']; simpl in *; [exact Hd|]. eapply shape_acc_len; eauto.
+Qed.
+
+Lemma fresh_pt n (l : list (list obs)) a i :
+  nth i (nth a (map (fun _ : list obs => tab n (fun _ => @None obs)) l) []) None = None.
+Proof.
+  revert a. induction l as [|x l IH]; intros [|a]; simpl; try (destruct i; reflexivity).
+  - destruct (lt_dec i n) as [L|L]; [rewrite nth_tab by exact L; reflexivity|].
+    apply nth_overflow. rewrite tab_length. lia.
+  - apply IH.
+Qed.
+
+(* a covered row of a well-formed context always carries a stored value (never stays masked) *)
+Lemma pay_cell_some shape n r a i :
+  wf_ctx shape n r -> present shape a = true -> nth i (r_mask r) false = true ->
+  exists v, pay_cell r a i = Some v.
+Proof.
+  intros Hw Ha Hc. unfold pay_cell.
+  destruct (nth_error (nth a (r_pay r) []) (rank (r_mask r) i)) eqn:E; [eauto|].
+  apply nth_error_None in E. rewrite (wf_pay_len shape n r a Hw Ha) in E.
+  pose proof (rank_lt_count _ _ Hc). lia.
+Qed.
+
+(* ---------------------------------------------------------------- one context *)
+
+Lemma pay_step_pt shape n r s :
+  wf_ctx shape n r -> pay_lens_ok shape n s ->
+  exists s', pay_step (Some s) r = Some s' /\ pay_lens_ok shape n s' /\
+    match last_key r with
+    | None => s' = s
+    | Some k =>
+        (forall k', k' <> k -> find k' s' = find k' s) /\
+        exists new, find k s' = Some new /\
+          forall a i, present shape a = true -> (i < n)%nat ->
+            nth i (nth a new []) None =
+            if nth i (r_mask r) false then pay_cell r a i
+            else match find k s with Some arrs => nth i (nth a arrs []) None | None => None end
+    end.
+Proof.
+  intros Hr Hs.
+  assert (Hlen : forall a, present shape a = true ->
+                   length (nth a (r_pay r) []) = count_true (r_mask r)).
+  { intros a Ha. eapply wf_pay_len; eauto. }
+  destruct Hr as [Hm Hp]. unfold pay_cell, pay_step.
+  destruct (r_pay r) as [|d axes] eqn:Epay; [contradiction|]. destruct Hp as [Hd Hax].
+  destruct (last_key r) as [k|]; [|exists s; auto].
+  destruct (all_true (r_mask r)) eqn:Eall.
+  - eexists. split; [reflexivity|]. split; [|split].
+    + intros k' a. destruct (key_eqb_spec k' k) as [->|N].
+      * rewrite find_upd_same. intros E. injection E as <-. simpl map.
+        split; [rewrite map_length, Hd, (count_true_all _ Eall); exact Hm|].
+        apply (replaced_axes_ok shape (count_true (r_mask r))); [|exact Hax].
+        rewrite (count_true_all _ Eall). exact Hm.
+      * rewrite find_upd_other by exact N. apply Hs.
+    + intros k' N. apply find_upd_other. exact N.
+    + eexists. split; [apply find_upd_same|]. intros a i Ha Hi.
+      change (@nil (option obs)) with (map (@Some obs) []). rewrite map_nth, nth_map_some.
+      rewrite nth_all_true by (auto; lia). rewrite rank_all_true by (auto; lia). reflexivity.
+  - set (old := match find k s with
+                | Some a => a
+                | None => map (fun _ => tab (length (r_mask r)) (fun _ => None)) (d :: axes)
+                end).
+    assert (Hold : match old with o :: olds => length o = n /\ Forall2 (fun p x => acc_ok p n x) shape olds | [] => False end).
+    { unfold old. destruct (find k s) as [a|] eqn:E; [eapply Hs; eauto|].
+      simpl map. split; [rewrite tab_length; exact Hm|].
+      rewrite Hm. apply (fresh_axes_ok shape (count_true (r_mask r))). exact Hax. }
+    assert (Hold_pt : forall a i, nth i (nth a old []) None =
+              match find k s with Some arrs => nth i (nth a arrs []) None | None => None end).
+    { intros a i. unfold old. destruct (find k s); [reflexivity|]. apply fresh_pt. }
+    clearbody old.
+    assert (Hold_len : forall a, present shape a = true -> length (nth a old []) = n).
+    { intros a Ha. eapply arrs_len; eauto. }
+    destruct old as [|o olds]; [contradiction|]. destruct Hold as [Ho Holds].
+    destruct (place_data (r_mask r) d o Hd) as [x [Ex Hx]]; [rewrite Ho, Hm; reflexivity|].
+    rewrite <- Hm in Holds.
+    destruct (place_all_axes shape (r_mask r) axes olds Hax Holds) as [rr [Er Hrr]].
+    assert (Eall' : place_all false (r_mask r) (d :: axes) (o :: olds) = Some (x :: rr)).
+    { simpl. rewrite Ex, Er. reflexivity. }
+    rewrite Eall'. eexists. split; [reflexivity|]. split; [|split].
+    + intros k' a. destruct (key_eqb_spec k' k) as [->|N].
+      * rewrite find_upd_same. intros E. injection E as <-. split; [rewrite Hx; exact Hm|]. rewrite <- Hm. exact Hrr.
+      * rewrite find_upd_other by exact N. apply Hs.
+    + intros k' N. apply find_upd_other. exact N.
+    + eexists. split; [apply find_upd_same|]. intros a i Ha Hi.
+      rewrite <- Hold_pt.
+      apply (place_all_pt (r_mask r) i (d :: axes) false (o :: olds) (x :: rr) a Eall').
+      * apply Hlen. exact Ha.
+      * rewrite Hold_len by exact Ha. exact Hi.
+Qed.
+
+(* ---------------------------------------------------------------- the whole pass *)
+
+Lemma pay_fold_pt shape n rs : forall s,
+  Forall (wf_ctx shape n) rs -> pay_lens_ok shape n s ->
+  exists p, fold_left pay_step rs (Some s) = Some p /\ pay_lens_ok shape n p /\
+    forall k,
+      match find k s with
+      | Some arrs =>
+          exists arrs', find k p = Some arrs' /\
+            forall a i, present shape a = true -> (i < n)%nat ->
+              nth i (nth a arrs' []) None = pay_from rs k a i (nth i (nth a arrs []) None)
+      | None =>
+          if keyed k rs
+          then exists arrs', find k p = Some arrs' /\
+                 forall a i, present shape a = true -> (i < n)%nat ->
+                   nth i (nth a arrs' []) None = pay_from rs k a i None
+          else find k p = None
+      end.
+Proof.
+  induction rs as [|r rs IH]; intros s Hwf Hs.
+  - exists s. split; [reflexivity|]. split; [exact Hs|]. intros k.
+    destruct (find k s) as [arrs|] eqn:E; simpl; [|reflexivity]. exists arrs. auto.
+  - inversion Hwf as [|? ? Hr Hrs]; subst.
+    destruct (pay_step_pt shape n r s Hr Hs) as [s' [Es' [Hs' Hstep]]].
+    change (fold_left pay_step (r :: rs) (Some s)) with (fold_left pay_step rs (pay_step (Some s) r)). rewrite Es'.
+    destruct (IH s' Hrs Hs') as [p [Ep [Hp Hfind]]].
+    exists p. split; [exact Ep|]. split; [exact Hp|]. intros k. specialize (Hfind k).
+    unfold keyed. simpl existsb. fold (keyed k rs).
+    destruct (last_key r) as [k0|] eqn:Ek0.
+    + destruct Hstep as [Hother [new [Enew Hnew]]].
+      destruct (key_eqb_spec k0 k) as [->|N].
+      * assert (Ekb : keyed_by k r = true) by (unfold keyed_by; rewrite Ek0; apply key_eqb_refl).
+        rewrite Ekb. simpl orb. rewrite Enew in Hfind. destruct Hfind as [arrs' [Ea' Hpt]].
+        assert (G : forall a i, present shape a = true -> (i < n)%nat ->
+                  nth i (nth a arrs' []) None =
+                  pay_from (r :: rs) k a i
+                    match find k s with Some arrs => nth i (nth a arrs []) None | None => None end).
+        { intros a i Ha Hi. rewrite (Hpt a i Ha Hi), (Hnew a i Ha Hi), pay_from_cons.
+          unfold pay_pt, pay_covers. rewrite Ekb. simpl andb. reflexivity. }
+        destruct (find k s) as [arrs|]; exists arrs'; auto.
+      * assert (Ekb : keyed_by k r = false).
+        { unfold keyed_by. rewrite Ek0. destruct (key_eqb_spec k0 k); congruence. }
+        rewrite Ekb. simpl orb. rewrite (Hother k) in Hfind by congruence.
+        assert (G : forall a i init, pay_from (r :: rs) k a i init = pay_from rs k a i init).
+        { intros a i init. rewrite pay_from_cons. unfold pay_pt, pay_covers. rewrite Ekb. reflexivity. }
+        destruct (find k s) as [arrs|].
+        -- destruct Hfind as [arrs' [Ea' Hpt]]. exists arrs'. split; [exact Ea'|].
+           intros a i Ha Hi. rewrite G. auto.
+        -- destruct (keyed k rs); [|exact Hfind].
+           destruct Hfind as [arrs' [Ea' Hpt]]. exists arrs'. split; [exact Ea'|].
+           intros a i Ha Hi. rewrite G. auto.
+    + subst s'.
+      assert (Ekb : keyed_by k r = false) by (unfold keyed_by; rewrite Ek0; reflexivity).
+      rewrite Ekb. simpl orb.
+      assert (G : forall a i init, pay_from (r :: rs) k a i init = pay_from rs k a i init).
+      { intros a i init. rewrite pay_from_cons. unfold pay_pt, pay_covers. rewrite Ekb. reflexivity. }
+      destruct (find k s) as [arrs|].
+      -- destruct Hfind as [arrs' [Ea' Hpt]]. exists arrs'. split; [exact Ea'|].
+         intros a i Ha Hi. rewrite G. auto.
+      -- destruct (keyed k rs); [|exact Hfind].
+         destruct Hfind as [arrs' [Ea' Hpt]]. exists arrs'. split; [exact Ea'|].
+         intros a i Ha Hi. rewrite G. auto.
+Qed.
+
+(* collect_pay_correct: the payload pass never raises; exactly the keys that are the last key of some
+   context get arrays; the data array and every present axis have one cell per input row, and the
+   cell of row i is that of the last context (of that key) covering row i, masked when there is
+   none.  Nothing is claimed for an absent axis (its accumulator is all-masked or empty). *)
+Theorem collect_pay_correct shape n rs :
+  Forall (wf_ctx shape n) rs ->
+  exists p, collect_pay rs = Some p /\
+    forall k,
+      if keyed k rs
+      then exists arrs, find k p = Some arrs /\
+             (forall a, present shape a = true -> length (nth a arrs []) = n) /\
+             (forall a i, present shape a = true -> (i < n)%nat ->
+                nth i (nth a arrs []) None = pay_from rs k a i None)
+      else find k p = None.
+Proof.
+  intros H. unfold collect_pay.
+  destruct (pay_fold_pt shape n rs [] H) as [p [Ep [Hp Hfind]]]; [intros k a E; discriminate|].
+  exists p. split; [exact Ep|]. intros k. specialize (Hfind k). simpl in Hfind.
+  destruct (keyed k rs); [|exact Hfind].
+  destruct Hfind as [arrs [Ea Hpt]]. exists arrs. split; [exact Ea|]. split; [|exact Hpt].
+  intros a Ha. eapply arrs_len; [|exact Ha]. eapply Hp. exact Ea.
+Qed.
+
+(* the data array alone (index 0 is always claimed) *)
+Corollary collect_pay_data shape n rs k :
+  Forall (wf_ctx shape n) rs -> keyed k rs = true ->
+  exists p arrs, collect_pay rs = Some p /\ find k p = Some arrs /\
+    length (nth 0 arrs []) = n /\
+    forall i, (i < n)%nat -> nth i (nth 0 arrs []) None = pay_from rs k 0 i None.
+Proof.
+  intros H Hk. destruct (collect_pay_correct shape n rs H) as [p [Ep Hf]].
+  specialize (Hf k). rewrite Hk in Hf. destruct Hf as [arrs [Ea [Hl Hpt]]].
+  exists p, arrs. repeat split; auto.
+Qed.
+
+(* ---------------------------------------------------------------- consequences *)
+
+(* (a) a row covered by no context of the key stays masked *)
+Lemma pay_uncovered rs k a i init :
+  (forall r, In r rs -> pay_covers r k i = false) -> pay_from rs k a i init = init.
+Proof.
+  revert init. induction rs as [|r rs IH]; intros init H; [reflexivity|].
+  rewrite pay_from_cons. unfold pay_pt. rewrite (H r) by (left; reflexivity).
+  apply IH. intros r' Hr'. apply H. right. exact Hr'.
+Qed.
+
+(* (b) the last context of the key covering a row decides it; in particular a row covered by exactly
+   one context carries that context's cell *)
+Lemma pay_covered_last rs1 r rs2 k a i init :
+  pay_covers r k i = true ->
+  (forall r', In r' rs2 -> pay_covers r' k i = false) ->
+  pay_from (rs1 ++ r :: rs2) k a i init = pay_cell r a i.
+Proof.
+  intros Hc H2. unfold pay_from. rewrite fold_left_app. simpl.
+  unfold pay_pt at 2. rewrite Hc. apply pay_uncovered. exact H2.
+Qed.
+
+Lemma pay_covered_unique rs1 r rs2 k a i init :
+  pay_covers r k i = true ->
+  (forall r', In r' rs1 -> pay_covers r' k i = false) ->
+  (forall r', In r' rs2 -> pay_covers r' k i = false) ->
+  pay_from (rs1 ++ r :: rs2) k a i init = pay_cell r a i.
+Proof. intros Hc _ H2. apply pay_covered_last; assumption. Qed.
+
+(* (c) the subset arrays of a context are the rows of the source columns its mask selects, in order *)
+Fixpoint restrict' {A} (m : list bool) (col : list A) : list A :=
+  match m, col with
+  | b :: m', x :: col' => if b then x :: restrict' m' col' else restrict' m' col'
+  | _, _ => []
+  end.
+
+Lemma restrict_length' {A} (m : list bool) (col : list A) :
+  length col = length m -> length (restrict' m col) = count_true m.
+Proof.
+  unfold count_true. revert col. induction m as [|b m IH]; intros [|x col] H; simpl in *; try discriminate;
+    [reflexivity|].
+  destruct b; simpl; rewrite IH by lia; reflexivity.
+Qed.
+
+Lemma restrict_rank {A} (m : list bool) (col : list A) d : forall i,
+  length col = length m -> nth i m false = true ->
+  nth_error (restrict' m col) (rank m i) = Some (nth i col d).
+Proof.
+  unfold rank, count_true. revert col.
+  induction m as [|b m IH]; intros [|x col] i Hlen Hi; simpl in *; try discriminate.
+  - destruct i; discriminate.
+  - destruct i as [|i]; simpl in *.
+    + subst b. reflexivity.
+    + destruct b; simpl; apply IH; auto.
+Qed.
+
+Lemma keyed_in k r rs : In r rs -> keyed_by k r = true -> keyed k rs = true.
+Proof. intros Hin Hk. unfold keyed. apply existsb_exists. exists r. auto. Qed.
+
+(* the collected data equals the source value on covered rows: if array a of the last context of
+   key k covering row i is the restriction of the source column `col` to the context's mask, the
+   collected cell of row i is `Some (col[i])` *)
+Theorem collect_pay_source shape n rs1 r rs2 k a i col :
+  Forall (wf_ctx shape n) (rs1 ++ r :: rs2) ->
+  present shape a = true -> (i < n)%nat ->
+  pay_covers r k i = true ->
+  (forall r', In r' rs2 -> pay_covers r' k i = false) ->
+  length col = n -> nth a (r_pay r) [] = restrict' (r_mask r) col ->
+  exists p arrs, collect_pay (rs1 ++ r :: rs2) = Some p /\ find k p = Some arrs /\
+    nth i (nth a arrs []) None = Some (nth i col None).
+Proof.
+  intros Hwf Ha Hi Hc H2 Hcol Hsub.
+  destruct (collect_pay_correct shape n _ Hwf) as [p [Ep Hf]]. specialize (Hf k).
+  apply andb_true_iff in Hc. destruct Hc as [Hk Hrow].
+  rewrite (keyed_in k r) in Hf; [|apply in_or_app; right; left; reflexivity|exact Hk].
+  destruct Hf as [arrs [Ea [_ Hpt]]]. exists p, arrs. split; [exact Ep|]. split; [exact Ea|].
+  rewrite (Hpt a i Ha Hi).
+  rewrite pay_covered_last; [|unfold pay_covers; rewrite Hk, Hrow; reflexivity|exact H2].
+  unfold pay_cell. rewrite Hsub. apply restrict_rank; [|exact Hrow].
+  assert (Hr : wf_ctx shape n r).
+  { rewrite Forall_forall in Hwf. apply Hwf. apply in_or_app. right. left. reflexivity. }
+  destruct Hr as [Hm _]. congruence.
+Qed.
+
+(* ... and a row no context of the key covers is masked in the collected arrays *)
+Theorem collect_pay_masked shape n rs k a i :
+  Forall (wf_ctx shape n) rs -> keyed k rs = true ->
+  present shape a = true -> (i < n)%nat ->
+  (forall r, In r rs -> pay_covers r k i = false) ->
+  exists p arrs, collect_pay rs = Some p /\ find k p = Some arrs /\
+    nth i (nth a arrs []) None = None.
+Proof.
+  intros Hwf Hk Ha Hi Hun.
+  destruct (collect_pay_correct shape n _ Hwf) as [p [Ep Hf]]. specialize (Hf k).
+  rewrite Hk in Hf. destruct Hf as [arrs [Ea [_ Hpt]]]. exists p, arrs.
+  split; [exact Ep|]. split; [exact Ea|]. rewrite (Hpt a i Ha Hi). apply pay_uncovered. exact Hun.
+Qed.
+
+(* non-vacuity: 3 rows, time axis present, depth absent; a full-window context (arrays replaced
+   wholesale), then a partial one over rows 0 and 2 (scattered), both under the same key *)
+Example collect_pay_example :
+  let k := ("s", "qartod", "t")%string in
+  let c := {| c_pkg := "qartod"; c_test := "t"; c_flags := [] |} in
+  let r1 := {| r_stream := "s"; r_calls := [c]; r_mask := [true; true; true];
+               r_pay := [[Some 1; Some 2; Some 3]; [Some 10; Some 20; Some 30]; []] |} in
+  let r2 := {| r_stream := "s"; r_calls := [c]; r_mask := [true; false; true];
+               r_pay := [[Some 7; None]; [Some 70; Some 90]; []] |} in
+  collect_pay [r1; r2] =
+    Some [(k, [[Some (Some 7); Some (Some 2); Some None];
+               [Some (Some 70); Some (Some 20); Some (Some 90)]; []])] /\
+  map (fun i => pay_from [r1; r2] k 0 i None) [0; 1; 2]%nat = [Some (Some 7); Some (Some 2); Some None] /\
+  Forall (wf_ctx [true; false] 3) [r1; r2].
+Proof.
+  simpl. split; [reflexivity|]. split; [reflexivity|].
+  repeat constructor.
+Qed.
